@@ -139,6 +139,8 @@ def work(args):
         desc, files, feats = suitcases.make_case(seed, index, ambiguous=(kind == "ambiguous"))
     except suitcases.ChildFailed:
         return None
+    import random
+    desc = suitcases.perturb_text(desc, random.Random(f"{seed}:{index}:text"))
     created = suitcases.run_impl_create(desc, files)
     if "ok" not in created:
         return {"skip": created["err"]}
@@ -148,7 +150,12 @@ def work(args):
     # parse: implementation vs model
     pi = suitio.impl_parse(b)
     pm = suitio.model_parse(drv, b)
-    if pi != pm and not suitio.same_err(pi, pm):
+    # the model's domain: raw byte strings that cbor2 would decode into objects outside the modelled subset (bignums, dates,
+    # indefinite lengths, ...) are compared only through the direct checks below, not model against implementation
+    from .c17 import py_lenient_ok
+    in_domain = kind != "ambiguous" or py_lenient_ok(b)
+    res["model_domain"] = in_domain
+    if in_domain and pi != pm and not suitio.same_err(pi, pm):
         res["mismatch"] = {"op": "suit.parse", "impl": _short(pi), "model": _short(pm)}
     if "ok" not in pi:
         res["problems"].append(("parse-of-created-envelope-fails", pi["err"]))
@@ -165,7 +172,7 @@ def work(args):
             res["problems"].append((tag, "re-create fails: " + r["err"]))
             continue
         b2 = r["ok"]
-        if not hier and fmt == "yaml" and "ok" in rm and rm["ok"] != b2.hex() and res["mismatch"] is None:
+        if in_domain and not hier and fmt == "yaml" and "ok" in rm and rm["ok"] != b2.hex() and res["mismatch"] is None:
             res["mismatch"] = {"op": "suit.roundtrip", "impl": b2.hex()[:600], "model": rm["ok"][:600]}
         try:
             i1, s1 = spans(b2)
